@@ -46,6 +46,28 @@ func c16Set(i uint64) ([][]byte, bool) {
 		maxL = 2
 	}
 	var lits [][]byte
+	if n > 64 && r.IntN(3) > 0 {
+		// large sets for the Aho-Corasick prefilter: distinct literals of one length (substring-free, so the
+		// automaton is built), two times out of three plus ONE literal that contains another one strictly inside
+		// (the set then must NOT be given to an earliest-ending automaton)
+		l := 3 + r.IntN(3)
+		seen := map[string]bool{}
+		for len(lits) < n {
+			b := make([]byte, l)
+			for k := range b {
+				b[k] = "abcdefghijklmnopqrstuvwxyz"[r.IntN(26)]
+			}
+			if !seen[string(b)] {
+				seen[string(b)] = true
+				lits = append(lits, b)
+			}
+		}
+		if r.IntN(3) > 0 {
+			o := lits[r.IntN(len(lits))]
+			lits[r.IntN(len(lits))] = append(append([]byte{'x'}, o...), 'y')
+		}
+		return lits, true
+	}
 	for len(lits) < n {
 		l := minL + r.IntN(maxL-minL+1)
 		b := make([]byte, l)
